@@ -41,7 +41,8 @@ Section Interleave.
   Variable nss : list (ident * text).
   Variable parse_dec : text -> option (Z * Z).
   Variable trim_strings : bool.
-  Notation x2d_node := (x2d_node nss parse_dec trim_strings).
+  Variable choose_own_only : bool.
+  Notation x2d_node := (x2d_node nss parse_dec trim_strings choose_own_only).
   Notation matches := (matches nss).
   Notation candidates := (candidates nss).
 
@@ -157,7 +158,7 @@ Section Interleave.
 
   (** documents read into a container-like selection (module, container, list entry) *)
   Theorem xml_interleave : forall m kids x x', xequiv x x' ->
-    read_doc nss parse_dec trim_strings (SCont m kids) x = read_doc nss parse_dec trim_strings (SCont m kids) x'.
+    read_doc nss parse_dec trim_strings choose_own_only (SCont m kids) x = read_doc nss parse_dec trim_strings choose_own_only (SCont m kids) x'.
   Proof.
     intros m kids x x' H. unfold read_doc, x2d_doc.
     destruct H as [t | n a k k' Ht Hk]; [reflexivity|].
@@ -171,7 +172,7 @@ Section Interleave.
     eff_ns [] x = eff_ns [] x' ->
     Forall2 xequiv (filter is_elem (xkids x)) (filter is_elem (xkids x')) ->
     is_elem x = true -> is_elem x' = true ->
-    read_doc nss parse_dec trim_strings (SList m keys row) x = read_doc nss parse_dec trim_strings (SList m keys row) x'.
+    read_doc nss parse_dec trim_strings choose_own_only (SList m keys row) x = read_doc nss parse_dec trim_strings choose_own_only (SList m keys row) x'.
   Proof.
     intros m keys row x x' Hn Hk Hx Hx'. unfold read_doc, x2d_doc.
     destruct x as [n a k|]; [|discriminate Hx]. destruct x' as [n' a' k'|]; [|discriminate Hx'].
